@@ -211,12 +211,15 @@ Proof.
     + eapply eval_term_const_bound; eauto.
   - apply in_app_or in Hv.
     destruct H as [[-> (c & Hc)]|[[-> (c & Hc)]|(c & Hl & Hr)]]; destruct Hv as [Hv|Hv];
-      try (simpl in Hv; destruct Hv as [<-|[]]; congruence);
-      eapply eval_term_const_bound; eauto.
+      try (simpl in Hv; destruct Hv as [<-|[]]; congruence).
+    + exact (eval_term_const_bound _ _ _ Hc _ Hv).
+    + exact (eval_term_const_bound _ _ _ Hc _ Hv).
+    + exact (eval_term_const_bound _ _ _ Hl _ Hv).
+    + exact (eval_term_const_bound _ _ _ Hr _ Hv).
   - destruct H as (a & b & Ha & Hb & _). apply in_app_or in Hv as [Hv|Hv];
-      eapply eval_term_const_bound; eauto.
+      [exact (eval_term_const_bound _ _ _ Ha _ Hv)|exact (eval_term_const_bound _ _ _ Hb _ Hv)].
   - destruct H as (a & b & Ha & Hb & _). apply in_app_or in Hv as [Hv|Hv];
-      eapply eval_term_const_bound; eauto.
+      [exact (eval_term_const_bound _ _ _ Ha _ Hv)|exact (eval_term_const_bound _ _ _ Hb _ Hv)].
 Qed.
 
 (* ================= matching a replaced atom ================= *)
@@ -283,11 +286,12 @@ Proof.
   intros Hw args0 cs HF. induction HF as [|t c args0 cs Ht _ IH]; intros n s Hn Hu0 Hus.
   - exists [], s. split; reflexivity.
   - destruct (term_is_wild t) as [->|Hnw].
-    + simpl. rewrite rw_term_wild.
+    + cbn [rw_terms]. rewrite rw_term_wild.
       assert (Hn1 : 0 <= n + 1) by lia.
       assert (Hus' : unb_from ((n, c) :: s) (n + 1)).
       { intros w Hwn. simpl. destruct (Z.eqb_spec w n); [lia|]. apply Hus. lia. }
-      destruct (IH (n + 1) ((n, c) :: s) Hn1 (unb_from_le _ _ _ Hu0 ltac:(lia)) Hus')
+      assert (Hle : n <= n + 1) by lia.
+      destruct (IH (n + 1) ((n, c) :: s) Hn1 (unb_from_le _ _ _ Hu0 Hle) Hus')
         as (pvs & u & Hm & Hun).
       destruct (rw_terms (n + 1) args0) as [n2 l2]. simpl in *.
       exists (VVar n :: pvs), u. rewrite (Hu0 n) by lia. rewrite Hm. split; [reflexivity|].
@@ -414,10 +418,9 @@ Proof.
     + destruct f as [fp fa]. simpl in *. subst fp. exact Hf.
     + apply HF. apply valext_refl.
   - (* negated atom *)
-    simpl in Hc.
+    simpl in Hh, Hc. destruct (rw_terms n (aargs a)) as [n' args'] eqn:Er. simpl in Hh, Hc.
     match type of Hc with context [if ?b then _ else _] => destruct b eqn:Eb; [|discriminate] end.
     rewrite forallb_forall in Eb.
-    simpl in Hh. destruct (rw_terms n (aargs a)) as [n' args'] eqn:Er. simpl in Hh.
     apply holds_neg_inv in Hh as (-> & pvs & Hev & Hall). simpl in Hev, Hall.
     assert (Hev' : map_opt (eval_term s) (snd (rw_terms n (aargs a))) = Some pvs) by (rewrite Er; exact Hev).
     split; [apply valext_refl|]. simpl.
@@ -445,6 +448,9 @@ Proof.
       split; apply cval_some; [rewrite <- Cl|rewrite <- Cr]; apply cval_of; assumption.
     + (* const = unbound variable *)
       injection Hst as <-. destruct Hin as [<-|[]].
+      assert (Hry : r <> TVar wild -> r = TVar y).
+      { intros Hnw. pose proof (Er Hnw) as X. rewrite ?Evr in X. symmetry in X.
+        apply eval_term_var_inv in X as [-> _]. reflexivity. }
       apply eval_term_var_inv in Evr as [-> Hly].
       assert (Hx : valext s ((y, a) :: s)) by (apply valext_cons; exact Hly).
       split; [exact Hx|]. simpl.
@@ -453,9 +459,12 @@ Proof.
       destruct (term_is_wild r) as [->|Hnw].
       * right. left. split; [reflexivity|eauto].
       * right. right. exists a. split; [exact Hl|].
-        rewrite <- (Er Hnw). simpl. rewrite Z.eqb_refl. reflexivity.
+        rewrite (Hry Hnw). simpl. rewrite Z.eqb_refl. reflexivity.
     + (* unbound variable = const *)
       injection Hst as <-. destruct Hin as [<-|[]].
+      assert (Hlx' : l <> TVar wild -> l = TVar x).
+      { intros Hnw. pose proof (El Hnw) as X. rewrite ?Evl in X. symmetry in X.
+        apply eval_term_var_inv in X as [-> _]. reflexivity. }
       apply eval_term_var_inv in Evl as [-> Hlx].
       assert (Hx : valext s ((x, b) :: s)) by (apply valext_cons; exact Hlx).
       split; [exact Hx|]. simpl.
@@ -464,7 +473,7 @@ Proof.
       destruct (term_is_wild l) as [->|Hnw].
       * left. split; [reflexivity|eauto].
       * right. right. exists b. split; [|exact Hr].
-        rewrite <- (El Hnw). simpl. rewrite Z.eqb_refl. reflexivity.
+        rewrite (Hlx' Hnw). simpl. rewrite Z.eqb_refl. reflexivity.
     + (* two unbound variables: excluded by alias_ok *)
       exfalso. apply eval_term_var_inv in Evl as [-> Hlx]. apply eval_term_var_inv in Evr as [-> Hly].
       simpl in Ha. destruct Hi as [Hb _].
